@@ -572,7 +572,7 @@ def ac_tap(rng, name, quick=None):
     return [key(code), "tick %d" % gap, key(code, mod_bit | RELEASE)]
 
 
-def gen_ascii_history(rng, length, full_shape=True):
+def gen_ascii_history(rng, length, full_shape=True, stock=False):
     """Mode-switch keys of every style (taps of both Shifts and both Controls inside / on the edge of / beyond the
     tap window, interrupted taps, Caps_Lock with and without the Lock modifier, Eisu_toggle, releases without a
     press), typing in ascii mode while composing (inline ascii) and while idle, letters with Caps Lock on,
@@ -617,7 +617,7 @@ def gen_ascii_history(rng, length, full_shape=True):
         elif r < 0.90:
             ops.append("opt ascii_mode %d" % rng.randrange(0, 2))
         elif r < 0.95:
-            ops += gen_kb_history(rng, 2, full_shape=full_shape)
+            ops += gen_kb_history(rng, 2, full_shape=full_shape and not stock)
         else:
-            ops += [o for o in gen_api_history(rng, 3) if full_shape or not o.startswith("opt full_shape")]
+            ops += [o for o in gen_api_history(rng, 3, stock=stock) if full_shape or not o.startswith("opt full_shape")]
     return ops[:length]
